@@ -416,13 +416,16 @@ def cli_corrupt(rec, rnd, tmp, k):
     O.write(os.path.join(b, 'config', 'merchants.rules'), text)
     O.write(os.path.join(b, 'config', 'views.rules'), vtext)
     other_notice = which == 'views' and rnd.random() < .5
-    O.write(os.path.join(b, 'config', 'settings.yaml'), 'year: 2025\nmerchants_file: config/merchants.rules\nviews_file: config/views.rules\n' +
+    # (every other budget leaves `merchants_file` out: config/merchants.rules is then the rules file by convention - and reported like a named one)
+    implicit = k % 2 == 1
+    rec.count('cli_budgets_with_the_rules_file_by_convention', 1 if implicit else 0)
+    O.write(os.path.join(b, 'config', 'settings.yaml'), 'year: 2025\n' + ('' if implicit else 'merchants_file: config/merchants.rules\n') + 'views_file: config/views.rules\n' +
             # (another thing to report about this budget - a mistyped rule_mode - does not hide the report about the views file)
             ('rule_mode: most-specific\n' if other_notice else '') +
             'data_sources:\n  - name: A\n    file: data/a.csv\n    format: "{date:%Y-%m-%d},{description},{amount}"\n')
     env = dict(os.environ, PYTHONPATH=core.SRC, PYTHONDONTWRITEBYTECODE='1', NO_COLOR='1')
     env.pop('TALLY_CONFIG', None)
-    case = {'kind': 'cli', 'which': which, 'cls': cls, 'rules': text, 'views': vtext}
+    case = {'kind': 'cli', 'which': which, 'cls': cls, 'rules': text, 'views': vtext, 'implicit_rules_file': implicit}
     rec.case()
     for cmd in (['up', os.path.join(b, 'config'), '--format', 'summary'], ['diag', os.path.join(b, 'config')]):
         p = subprocess.run([core.PY, '-m', 'tally'] + cmd, cwd=b, env=env, capture_output=True, text=True, stdin=subprocess.DEVNULL, timeout=120)
